@@ -75,6 +75,7 @@ func (t *fnTrans) setupParams() {
 	}
 	t.closureFacts()
 	t.packageInvariants()
+	t.methodInvEntry()
 }
 
 // atEntry: lock preconditions (held set at entry).
